@@ -5,9 +5,12 @@ use serde_json::Value;
 pub mod c01;
 pub mod c02;
 pub mod c03;
+pub mod c10;
 pub mod c11;
+pub mod c12;
 pub mod c13;
 pub mod c16;
+pub mod c17;
 
 pub struct Prop {
     pub id: &'static str,
@@ -20,9 +23,12 @@ pub const PROPS: &[Prop] = &[
     Prop { id: "C01", level: "exploration", run: c01::run, replay: c01::replay },
     Prop { id: "C02", level: "exploration", run: c02::run, replay: c02::replay },
     Prop { id: "C03", level: "exploration", run: c03::run, replay: c03::replay },
+    Prop { id: "C10", level: "exploration", run: c10::run, replay: c10::replay },
     Prop { id: "C11", level: "exploration", run: c11::run, replay: c11::replay },
+    Prop { id: "C12", level: "exploration", run: c12::run, replay: c12::replay },
     Prop { id: "C13", level: "exploration", run: c13::run, replay: c13::replay },
     Prop { id: "C16", level: "fault_enumeration", run: c16::run, replay: c16::replay },
+    Prop { id: "C17", level: "exploration", run: c17::run, replay: c17::replay },
 ];
 
 pub fn find(id: &str) -> Option<&'static Prop> {
